@@ -1,6 +1,6 @@
 """C18, sync half, on the real code (bounded, real time): with SyncStrategy::IntervalMs(25) the store is kept open for 1.5 s under
-`strace -f -y -e trace=fsync,fdatasync`; the active data file must be fsync'ed at least once per THREE intervals on average (slack
-for the scheduler), whatever the merge policy; with SyncStrategy::None no fsync may come from the background at all."""
+`strace -f -y -e trace=fsync,fdatasync`; the active data file must be fsync'ed at least 8 times (about 55 are expected; the margin absorbs a
+loaded machine), whatever the merge policy; with SyncStrategy::None no fsync may come from the background at all."""
 import os
 import re
 import subprocess
@@ -28,10 +28,10 @@ def search(binary):
     for policy in ("never", "always"):
         n = _count(binary, policy, 25, 1500)
         runs.append((policy, 25, n))
-        if n < 20:
+        if n < 8:      # about 55 are expected; the margin absorbs a loaded machine and the slowdown under strace
             return {"found": True, "scenario": "sync-interval", "kind": "sync-interval", "props": "C18",
                     "history": "merge policy %s, SyncStrategy::IntervalMs(25), store open and written to for 1500 ms" % policy,
-                    "observed": "%d fsync calls on a data file" % n, "expected": "about 60 (at least 20)"}
+                    "observed": "%d fsync calls on a data file" % n, "expected": "about 55 (at least 8)"}
     n0 = _count(binary, "always", 0, 600)
     if n0 > 0:
         return {"found": True, "scenario": "sync-interval", "kind": "sync-interval", "props": "C18",
